@@ -389,6 +389,43 @@ fn put_step<KT: KeyGen>(want_present: bool) {
     core::mem::forget(m);
 }
 
+/// cross-check of the induction (DESIGN 2): two real calls in a row on one handle - what the
+/// one-step harnesses conclude from I2 is observed directly through the real lookup code
+fn put_then_get<KT: KeyGen>() {
+    let n = setup::<KT>(NPRE, false);
+    let mut m = open::<KT>();
+    let k = KT::any_key();
+    let o = KT::any_key();
+    kani::assume(!keq(&k, &o));
+    let before_o = model_get(&o);
+    let v = any_val();
+    let kt: KT = kt_of(&k);
+    let ot: KT = kt_of(&o);
+    ok(m.put_kt(&kt, &v.0[..v.1]));
+    let g = ok(m.get_kt(&kt));
+    match &g {
+        Some(a) => assert!(vec_is(a, &v), "get after put does not return the value put"),
+        None => assert!(false, "get after put finds nothing"),
+    }
+    let go = ok(m.get_kt(&ot));
+    match (&go, &before_o) {
+        (Some(a), Some(b)) => assert!(vec_is(a, b), "get of another key changed after a put"),
+        (None, None) => (),
+        _ => assert!(false, "another key appeared or vanished after a put"),
+    }
+    let d = ok(m.del_kt(&kt));
+    match &d {
+        Some(a) => assert!(vec_is(a, &v), "delete after put does not return the value put"),
+        None => assert!(false, "delete after put finds nothing"),
+    }
+    assert!(!ok(m.includes_key_kt(&kt)), "key still present after put + delete");
+    inv_ok::<KT>();
+    kani::cover!(w().key_moves >= 1, "a key record moved on the way");
+    core::mem::forget((g, go, d));
+    core::mem::forget((kt, ot));
+    core::mem::forget(m);
+}
+
 // ------------------------------------------------------------------------------------ delete
 fn del_step<KT: KeyGen>(want_present: bool) {
     let n = setup::<KT>(NPRE, false);
@@ -868,6 +905,7 @@ sproof!(m_stats_vlen_bytes, stats_step::<DbBytes>(1));
 sproof!(m_stats_ksize_bytes, stats_step::<DbBytes>(2));
 sproof!(m_stats_vsize_bytes, stats_step::<DbBytes>(3));
 
+hproof!(m_put_get_del_bytes, put_then_get::<DbBytes>());
 hproof!(m_put_new_vu64, put_step::<DbVu64>(false));
 hproof!(m_put_over_vu64, put_step::<DbVu64>(true));
 hproof!(m_del_hit_vu64, del_step::<DbVu64>(true));
